@@ -307,11 +307,11 @@ fn wop(counter: bool) -> BoxedStrategy<WOp> {
         prop_oneof![
             8 => (0u8..4, 0u16..3000).prop_map(|(blocks, extra)| WOp::Put { blocks, extra }),
             3 => Just(WOp::Delete),
-            2 => Just(WOp::UpdateTtl),
-            1 => Just(WOp::Persist),
+            4 => Just(WOp::UpdateTtl),
+            2 => Just(WOp::Persist),
             3 => (0u8..4, 0u16..3000).prop_map(|(blocks, extra)| WOp::CasSelf { blocks, extra }),
             1 => (0u8..3).prop_map(WOp::Pause),
-            5 => Just(WOp::Settle),
+            7 => Just(WOp::Settle),
         ]
         .boxed()
     }
@@ -737,6 +737,29 @@ pub fn run_race_program(p: &RaceProgram) -> RaceOutcome {
             }
         }
     }
+    // quiescence: every key reads back as its last state (a lost or masked update would show here)
+    if failure.is_none() {
+        let _ = store.flush();
+        for (ki, st) in states.iter().enumerate() {
+            let key = race_key(ki);
+            let want = st.last().unwrap();
+            for attempt in 0..2 {
+                let got = match store.get(&key) {
+                    Ok(v) => classify_value(ki, p.counters[ki], &v),
+                    Err(feoxdb::FeoxError::KeyNotFound) => ObsOutcome::NotFound,
+                    Err(e) => ObsOutcome::Error(format!("{e:?}")),
+                };
+                let ok = match (&got, want) {
+                    (ObsOutcome::NotFound, VState::Absent) => true,
+                    (ObsOutcome::Value(v), w) => v == w,
+                    _ => false,
+                };
+                if !ok && failure.is_none() {
+                    failure = Some(("final-state-wrong".into(), format!("after all threads finished (read {} of 2), get({}) = {got:?} but the writer's last state is {want:?}", attempt + 1, String::from_utf8_lossy(&key))));
+                }
+            }
+        }
+    }
     let hits = dev.lock().unwrap().overwrite_hits.clone();
     if failure.is_none() && !hits.is_empty() {
         failure = Some(("extent-overwritten-while-read".into(), format!("device blocks {:?} were overwritten while a reader held them between locating and reading the extent", hits)));
@@ -1035,4 +1058,258 @@ pub fn run_scan_program(p: &ScanProgram) -> ScanOutcome {
     let out = ScanOutcome { failure, scans, scans_overlapping_churn: overlapping, sched_events: ctl.events() };
     env::reap(store, path);
     out
+}
+
+// ------------------------------------------------------------------------------------------
+// C18: contention programs that must terminate (also the body of the C20 sanitizer runs)
+// ------------------------------------------------------------------------------------------
+
+#[derive(Clone, Debug, Serialize, Deserialize, PartialEq, Eq)]
+pub enum DropMode {
+    /// join everything, then drop
+    Quiescent,
+    /// the main thread drops its handle while workers still hold clones and keep calling
+    WhileBusy,
+    /// the TTL sweeper may hold the last strong reference
+    SweeperLast,
+}
+
+#[derive(Clone, Debug, Serialize, Deserialize, PartialEq, Eq)]
+pub struct TermProgram {
+    pub visible_cpus: u8,
+    /// tiny device (fills up: flush must report OutOfSpace and later succeed after deletes)
+    pub data_blocks: u16,
+    pub plain_io: bool,
+    pub cache: bool,
+    /// fail every device write/fsync from the k-th I/O call on (0 = healthy device)
+    pub fail_from: u16,
+    /// number of consecutive failing calls (0 = every call until healed)
+    #[serde(default)]
+    pub fail_count: u8,
+    pub fail_heals_after_ms: u16,
+    pub writers: u8,
+    pub writer_ops: u16,
+    pub readers: u8,
+    pub flushers: u8,
+    pub sweeper: bool,
+    pub keys: u8,
+    pub value_blocks: u8,
+    pub drop_mode: DropMode,
+    pub schedule: Schedule,
+}
+
+pub fn term_program_strategy() -> BoxedStrategy<TermProgram> {
+    (
+        (prop_oneof![Just(2u8), Just(4u8), Just(8u8), Just(16u8)], prop_oneof![3 => 20u16..60, 1 => Just(500u16)], any::<bool>(), any::<bool>()),
+        (prop_oneof![3 => Just(0u16), 3 => 5u16..160], prop_oneof![Just(0u8), Just(1u8), Just(3u8), Just(4u8), Just(9u8)], prop_oneof![Just(0u16), Just(30), Just(200)]),
+        (1u8..4, 20u16..200, 0u8..3, 1u8..4, proptest::bool::weighted(0.3)),
+        (2u8..12, 0u8..4),
+        prop_oneof![3 => Just(DropMode::Quiescent), 2 => Just(DropMode::WhileBusy), 1 => Just(DropMode::SweeperLast)],
+        sched::schedule_strategy(),
+    )
+        .prop_map(|((visible_cpus, data_blocks, plain_io, cache), (fail_from, fail_count, fail_heals_after_ms), (writers, writer_ops, readers, flushers, sweeper), (keys, value_blocks), drop_mode, schedule)| TermProgram {
+            visible_cpus,
+            data_blocks,
+            plain_io: plain_io || fail_from > 0,
+            cache,
+            fail_from,
+            fail_count,
+            fail_heals_after_ms,
+            writers,
+            writer_ops,
+            readers,
+            flushers,
+            sweeper: sweeper || drop_mode == DropMode::SweeperLast,
+            keys,
+            value_blocks,
+            drop_mode,
+            schedule,
+        })
+        .boxed()
+}
+
+pub struct TermOutcome {
+    pub calls: u64,
+    pub flush_errors: u64,
+    pub out_of_space: u64,
+    pub threads_inside: u64,
+    pub faults_injected: u64,
+    pub panicked: bool,
+}
+
+/// Runs to completion or is killed by the watchdog (the caller journals the program first).
+pub fn run_term_program(p: &TermProgram) -> TermOutcome {
+    feoxdb::verif::set_thread_clock(None);
+    let cfg = Config { persistent: true, version: 3, cache: p.cache, ttl: p.sweeper, dev: DevSize::Tiny(p.data_blocks), max_memory: None, plain_io: p.plain_io, legacy_plain_meta: false, visible_cpus: p.visible_cpus };
+    let path = env::fresh_path("term");
+    std::fs::File::create(&path).expect("create");
+    let dev = crate::trace::register(&path, false);
+    let store = match seq::open_store(&cfg, Some(&path)) {
+        Ok(s) => Arc::new(s),
+        Err(_) => return TermOutcome { calls: 0, flush_errors: 0, out_of_space: 0, threads_inside: 0, faults_injected: 0, panicked: false },
+    };
+    if p.sweeper {
+        store.start_ttl_sweeper(Some(feoxdb::core::ttl_sweep::TtlConfig { sample_size: 20, expiry_threshold: 0.1, max_iterations: 8, max_time_per_run: std::time::Duration::from_millis(2), sleep_interval: std::time::Duration::from_millis(2), enabled: true }));
+    }
+    if p.fail_from > 0 {
+        let base = dev.lock().unwrap().io_calls;
+        dev.lock().unwrap().plan = Some(crate::trace::FaultPlan { from: base + p.fail_from as usize, count: if p.fail_count == 0 { usize::MAX } else { p.fail_count as usize }, mode: if p.fail_from % 2 == 0 { crate::trace::FaultMode::Before } else { crate::trace::FaultMode::After }, errno: libc::EIO, second: None });
+    }
+    let ctl = Controller::new(p.schedule.clone());
+    sched::install(Some(ctl.clone()));
+    let calls = Arc::new(AtomicU64::new(0));
+    let flush_errors = Arc::new(AtomicU64::new(0));
+    let oos = Arc::new(AtomicU64::new(0));
+    let inside = Arc::new(AtomicU64::new(0));
+    let max_inside = Arc::new(AtomicU64::new(0));
+    let stop = Arc::new(AtomicBool::new(false));
+    let nthreads = p.writers as usize + p.readers as usize + p.flushers as usize;
+    let barrier = Arc::new(Barrier::new(nthreads + 1));
+    let key = |i: usize| format!("tk{:03}", i).into_bytes();
+    let mut handles = Vec::new();
+    let enter = |inside: &AtomicU64, max_inside: &AtomicU64| {
+        let n = inside.fetch_add(1, Ordering::SeqCst) + 1;
+        max_inside.fetch_max(n, Ordering::SeqCst);
+    };
+    for w in 0..p.writers as usize {
+        let (store, barrier, calls, inside, max_inside) = (store.clone(), barrier.clone(), calls.clone(), inside.clone(), max_inside.clone());
+        let (nkeys, ops, vb, sweeper) = (p.keys as usize, p.writer_ops as usize, p.value_blocks as usize, p.sweeper);
+        handles.push(std::thread::spawn(move || {
+            barrier.wait();
+            for i in 0..ops {
+                let k = key((i * 7 + w * 3) % nkeys);
+                let _g = env::watch("C18 writer call");
+                enter(&inside, &max_inside);
+                match (i + w) % 7 {
+                    0 | 1 | 2 => {
+                        let mut v = vec![0u8; if vb == 0 { 60 } else { vb * 4096 - 100 + (i % 50) }];
+                        seq::stamp_fill(&mut v, (i % nkeys) as u16, i as u32);
+                        if sweeper && i % 5 == 0 {
+                            let _ = store.insert_with_ttl(&k, &v, 1);
+                        } else {
+                            let _ = store.insert(&k, &v);
+                        }
+                    }
+                    3 => {
+                        let _ = store.delete(&k);
+                    }
+                    4 => {
+                        let _ = store.atomic_increment(format!("tc{}", i % 3).as_bytes(), 1);
+                    }
+                    5 => {
+                        let _ = store.insert_bytes(&k, bytes::Bytes::from(vec![b'z'; 100 + i % 3000]));
+                    }
+                    _ => {
+                        let _ = store.compare_and_swap(&k, b"nope", b"x");
+                    }
+                }
+                inside.fetch_sub(1, Ordering::SeqCst);
+                calls.fetch_add(1, Ordering::Relaxed);
+            }
+        }));
+    }
+    for r in 0..p.readers as usize {
+        let (store, barrier, calls, inside, max_inside, stop) = (store.clone(), barrier.clone(), calls.clone(), inside.clone(), max_inside.clone(), stop.clone());
+        let nkeys = p.keys as usize;
+        handles.push(std::thread::spawn(move || {
+            barrier.wait();
+            let mut i = r;
+            while !stop.load(Ordering::Acquire) && i < 200_000 {
+                let _g = env::watch("C18 reader call");
+                enter(&inside, &max_inside);
+                if i % 9 == 0 {
+                    let _ = store.range_query(b"tk", b"tk~", 50);
+                } else {
+                    let _ = store.get(&key(i % nkeys));
+                }
+                inside.fetch_sub(1, Ordering::SeqCst);
+                calls.fetch_add(1, Ordering::Relaxed);
+                i += 1;
+            }
+        }));
+    }
+    for _ in 0..p.flushers as usize {
+        let (store, barrier, calls, inside, max_inside, stop, flush_errors, oos) = (store.clone(), barrier.clone(), calls.clone(), inside.clone(), max_inside.clone(), stop.clone(), flush_errors.clone(), oos.clone());
+        handles.push(std::thread::spawn(move || {
+            barrier.wait();
+            let mut n = 0;
+            while !stop.load(Ordering::Acquire) && n < 5_000 {
+                let _g = env::watch("C18 flush call");
+                enter(&inside, &max_inside);
+                match store.flush() {
+                    Ok(()) => {}
+                    Err(feoxdb::FeoxError::OutOfSpace) => {
+                        oos.fetch_add(1, Ordering::Relaxed);
+                    }
+                    Err(_) => {
+                        flush_errors.fetch_add(1, Ordering::Relaxed);
+                    }
+                }
+                inside.fetch_sub(1, Ordering::SeqCst);
+                calls.fetch_add(1, Ordering::Relaxed);
+                n += 1;
+                std::thread::yield_now();
+            }
+        }));
+    }
+    barrier.wait();
+    let mut main_handle = Some(store);
+    if p.drop_mode == DropMode::WhileBusy {
+        // give up the main handle while the workers still run: the last clone drops the store
+        std::thread::sleep(std::time::Duration::from_millis(2));
+        let _g = env::watch("C18 drop of main handle while busy");
+        drop(main_handle.take());
+    }
+    if p.fail_from > 0 && p.fail_heals_after_ms > 0 {
+        std::thread::sleep(std::time::Duration::from_millis(p.fail_heals_after_ms as u64));
+        dev.lock().unwrap().plan = None;
+    }
+    // writers finish on their own; then readers and flushers are told to stop
+    let mut panicked = false;
+    let nw = p.writers as usize;
+    let mut rest = Vec::new();
+    for (i, h) in handles.into_iter().enumerate() {
+        if i < nw {
+            let _g = env::watch("C18 join writer");
+            panicked |= h.join().is_err();
+        } else {
+            rest.push(h);
+        }
+    }
+    // a full device must accept a flush again once keys are deleted
+    if let Some(s) = main_handle.as_ref() {
+        if oos.load(Ordering::Relaxed) > 0 && p.fail_from == 0 {
+            for i in 0..p.keys as usize {
+                let _ = s.delete(&key(i));
+            }
+        }
+    }
+    stop.store(true, Ordering::Release);
+    for h in rest {
+        let _g = env::watch("C18 join reader/flusher");
+        panicked |= h.join().is_err();
+    }
+    sched::install(None);
+    let faults = dev.lock().unwrap().faults_injected as u64;
+    if let Some(s) = main_handle.take() {
+        let _g = env::watch("C18 final flush");
+        let _ = s.flush();
+        drop(_g);
+        let _g = env::watch("C18 drop");
+        match p.drop_mode {
+            DropMode::SweeperLast => {
+                // let the sweeper thread be the one that releases the last reference now and then
+                let weak = Arc::downgrade(&s);
+                drop(s);
+                let t = std::time::Instant::now();
+                while weak.upgrade().is_some() && t.elapsed() < std::time::Duration::from_secs(30) {
+                    std::thread::sleep(std::time::Duration::from_millis(1));
+                }
+            }
+            _ => drop(s),
+        }
+    }
+    crate::trace::unregister(&path);
+    let _ = std::fs::remove_file(&path);
+    TermOutcome { calls: calls.load(Ordering::Relaxed), flush_errors: flush_errors.load(Ordering::Relaxed), out_of_space: oos.load(Ordering::Relaxed), threads_inside: max_inside.load(Ordering::Relaxed), faults_injected: faults, panicked }
 }
